@@ -140,7 +140,7 @@ func Spec() *run.Spec {
 				if t == "thorough" {
 					return 300 + manyBlockCases(t) + historyCases(t) + pfStressCases(t) + seamCases(t)
 				}
-				return 24 + manyBlockCases(t) + historyCases(t) + pfStressCases(t) + seamCases(t)
+				return 20 + manyBlockCases(t) + historyCases(t) + pfStressCases(t) + seamCases(t)
 			}, Run: fieldCase, Batch: 1, CPUBudgetS: 900, Parallel: 12, Env: plainEnv},
 			{Name: "race-scan", Race: true, Cases: func(t string) int {
 				if t == "thorough" {
